@@ -122,7 +122,7 @@ func (ro *Roles) expiryHandler(r *Report, rule string) {
 	}
 	fn := ro.Expiry
 	fname := FuncName(fn)
-	res := w.EnumPaths(fn, EnumOpts{Inline: true})
+	res := w.EnumPaths(fn, EnumOpts{Inline: true, Opaque: w.statelessCallee})
 	r.Count("paths", len(res.Paths))
 	ok := true
 	detail := ""
@@ -217,7 +217,7 @@ func (ro *Roles) expiryHandler(r *Report, rule string) {
 				r.OK(rule+".who-clears", key, w.InstrPos(st), "the expiry handler (reachable only as the timer's callback and the exported API)")
 			case host == ro.Accept:
 				// replace: the slot is overwritten on every path afterwards
-				res := w.EnumPaths(host, EnumOpts{Inline: true})
+				res := w.EnumPaths(host, EnumOpts{Inline: true, Opaque: w.statelessCallee})
 				okW, seen := !res.Truncated, false
 				for _, p := range res.Paths {
 					for i, e := range p.Effects {
@@ -340,14 +340,14 @@ func splitArgs(s string) []string {
 	return append(out, cur)
 }
 
-func (ro *Roles) dequeueIndependent(r *Report, rule string) {
+func (ro *Roles) dequeueIndependentOld(r *Report, rule string) {
 	w := ro.w
 	if !ro.need(r, rule, map[string]*ssa.Function{"dequeue decision": ro.DequeueDecision, "admission function": ro.Admit}) {
 		return
 	}
 	fn := ro.DequeueDecision
 	fname := FuncName(fn)
-	res := w.EnumPaths(fn, EnumOpts{Inline: true})
+	res := w.EnumPaths(fn, EnumOpts{Inline: true, Opaque: w.statelessCallee})
 	r.Count("paths", len(res.Paths))
 	vars := map[string]string{"arg0.StartDelay": "jobdelay", "arg0.startTimer": "timer"}
 	prefix := FuncName(ro.Admit) + "("
